@@ -743,6 +743,11 @@ func (d *driver) stageForced() {
 		// A goes on and publishes its own copy over it (os.Rename replaces atomically). Each needs its OWN
 		// temporary file: with a shared one A's rename finds nothing (mutation rebuild-fixed-tmp)
 		{"killed-before-tar/A-held-in-rebuild/B-rebuilds-too", "rebuild.created#1", "", "", "pkg.post-advertise-dat#1"},
+		// ... A has decompressed everything into its temporary file and is held before close+rename, B has just
+		// created its own (empty) temporary file and is held; A publishes; a third build C reads <hash>.dat.tar
+		// while B is still inside the rebuild. With a shared temporary name B's os.Create truncates the file A
+		// is about to publish: C would read an empty tar under the final name
+		{"killed-before-tar/A-held-after-copy/B-held-after-create", "rebuild.copied#1", "", "rebuild.created#1", "pkg.post-advertise-dat#1"},
 	}
 	// needs the hook cached.after-sig-stat (fixes/hooks-c19-b.patch); without it B would not be held
 	if src, err := os.ReadFile(filepath.Join(os.Getenv("VERIF_REPO"), "pkg/apk/apk/implementation.go")); err == nil &&
@@ -792,6 +797,9 @@ func (d *driver) stageForced() {
 			rA := finish(cmdA, resA, tA)
 			d.checkBuild("forced "+c.name+" (A, finishing while B is inside the rebuild; nobody is killed)", 0, pk, cache, rA,
 				map[string]any{"exp": "forced", "name": c.name, "builder": "A"})
+			// a third build while B is still held
+			rC := d.w.run(runSpec{Cache: cache, Pkgs: pk})
+			d.checkBuild("forced "+c.name+" (C, while B is still held)", 0, pk, cache, rC, map[string]any{"exp": "forced", "name": c.name, "builder": "C"})
 			os.WriteFile(wfB, nil, 0o644)
 			rB := finish(cmdB, resB, tB)
 			d.checkBuild("forced "+c.name+" (B)", 0, pk, cache, rB, map[string]any{"exp": "forced", "name": c.name, "builder": "B"})
